@@ -111,6 +111,53 @@ func stDecode(b []byte, t wire.Type, plan simio.Plan) outcome {
 	})
 }
 
+// ownedBuffer: stream decode from a *bytes.Buffer; once the value has been read the owner
+// refills the buffer (the next frame arrives) - the decoded value must not change with it.
+func ownedBuffer(b []byte, t wire.Type) outcome {
+	return guard(func() outcome {
+		buf := bytes.NewBuffer(append([]byte{}, b...))
+		sr := tbin.NewStreamReader(buf)
+		defer sr.Close()
+		v, err := streamDecode(sr, t, 0)
+		if err != nil {
+			return outcome{err: err.Error()}
+		}
+		used := int64(len(b) - buf.Len())
+		buf.Reset()
+		junk := make([]byte, len(b))
+		for i := range junk {
+			junk[i] = 0xa5
+		}
+		buf.Write(junk)
+		return outcome{ok: true, val: v, used: used}
+	})
+}
+
+// lazyReencode: random-access decode from a *bytes.Reader whose own read cursor has been moved
+// (a header was read with Read, the input was checksummed), written out again by the library's
+// writer as it is, lazy containers and all. The encoding comes back in val.B.
+func lazyReencode(b []byte, t wire.Type, start int) outcome {
+	return guard(func() outcome {
+		rd := bytes.NewReader(b)
+		switch ch("c03.cursor", 3) {
+		case 1:
+			rd.Seek(int64(len(b)), 0)
+		case 2:
+			rd.Seek(int64(len(b)/2), 0)
+		}
+		r := tbin.NewReader(rd)
+		v, _, err := r.ReadValue(t, int64(start))
+		if err != nil {
+			return outcome{err: err.Error()}
+		}
+		w := simio.NewWriter(-1)
+		if err := tbin.Default.Encode(v, w); err != nil {
+			return outcome{err: "encode: " + err.Error()}
+		}
+		return outcome{ok: true, val: ref.Val{T: ref.TBinary, B: w.Buf}}
+	})
+}
+
 // stSkip: stream.Reader.Skip.
 func stSkip(b []byte, t wire.Type, plan simio.Plan) outcome {
 	return guard(func() outcome {
@@ -390,6 +437,22 @@ func RunC03(cfg simrt.Config, o world.Opts) *world.Result {
 				res.Failf("C03/reencode-failed", "library Encode of the decoded value failed: %s", lib)
 			} else if !bytes.Equal(w.Buf, prefix) {
 				res.Failf("C03/canonical-lib", "library re-encoding %x differs from consumed prefix %x", clip(w.Buf, 64), clip(prefix, 64))
+			}
+			// sources the caller owns: a *bytes.Buffer that is refilled once the value has been
+			// read from it, a *bytes.Reader whose own cursor stands somewhere else
+			if ob := ownedBuffer(b[start:], wt); ob.panic != "" {
+				res.Failf("C03/panic", "stream decode from a bytes.Buffer panicked on %x as %s: %s", clip(b, 64), ref.TypeName(t), first(ob.panic, 500))
+				return
+			} else if !ob.ok || ob.used != base.used || !bytes.Equal(ref.Encode(nil, ob.val), prefix) {
+				res.Failf("C03/source-retained", "stream decode of %x as %s from a bytes.Buffer that was refilled afterwards -> %s, baseline %s", clip(prefix, 64), ref.TypeName(t), ob, base)
+			}
+			if lz := lazyReencode(b, wt, start); lz.panic != "" {
+				res.Failf("C03/panic", "re-encoding a lazily decoded value panicked on %x as %s: %s", clip(b, 64), ref.TypeName(t), first(lz.panic, 500))
+				return
+			} else if !lz.ok {
+				res.Failf("C03/canonical-lazy", "decode of %x as %s from a bytes.Reader, written out again by the library without forcing: %s", clip(prefix, 64), ref.TypeName(t), lz)
+			} else if !bytes.Equal(lz.val.B, prefix) {
+				res.Failf("C03/canonical-lazy", "decode of %x as %s from a bytes.Reader, written out again by the library without forcing, gives %x", clip(prefix, 64), ref.TypeName(t), clip(lz.val.B, 64))
 			}
 			// reference decoder agreement (observation only)
 			if rv, rc, rerr := ref.Decode(b[start:], t); rerr != nil || rc != int(base.used) || !bytes.Equal(ref.Encode(nil, rv), prefix) {
